@@ -34,10 +34,12 @@ Lift(post, old) ==
    vol |-> [lastVals |-> post.vol.lastVals, allDelegs |-> old.vol.allDelegs, limiter |-> post.vol.limiter,
             rwdHash |-> post.vol.rwdHash, evmRoot |-> post.vol.evmRoot, evmHeight |-> post.vol.evmHeight],
    prevGov |-> old.prevGov, tree |-> old.tree, hist |-> old.hist, docs |-> old.docs, delivered |-> old.delivered,
-   proposer |-> old.proposer, rank |-> old.rank]
+   proposer |-> old.proposer, rank |-> old.rank, mem |-> old.mem]
 
 GenesisModel(e) ==
   Lift(e.post, [vol |-> [allDelegs |-> EmptyF], prevGov |-> e.post.gov,
+                \* the genesis state is not a committed version: until block 1 is committed the mempool sees nothing
+                mem |-> [accts |-> EmptyF, delegs |-> EmptyF, frozen |-> <<>>, rewards |-> EmptyF, props |-> EmptyF, limiter |-> e.post.vol.limiter],
                 tree |-> [delegs |-> EmptyF, frozen |-> <<>>, props |-> EmptyF, fprops |-> EmptyF],
                 hist |-> EmptyF, docs |-> EmptyF, delivered |-> {}, proposer |-> "none", rank |-> e.addrRank])
 
@@ -49,8 +51,8 @@ StateDiff(mm, post, withLimiter) ==
   \cup (IF withLimiter /\ mm.vol.limiter # post.vol.limiter THEN {"limiter"} ELSE {})
 
 RespDiff(e, r) ==
-  CASE e.ev = "DeliverTx" -> (IF r.resp.ok # e.resp.ok THEN {"resp.ok"} ELSE {})
-                             \cup (IF r.resp.ok /\ e.resp.ok /\ r.resp.gasUsed # e.resp.gasUsed THEN {"resp.gasUsed"} ELSE {})
+  CASE e.ev \in {"DeliverTx", "CheckTx"} -> (IF r.resp.ok # e.resp.ok THEN {"resp.ok"} ELSE {})
+                             \cup (IF e.ev = "DeliverTx" /\ r.resp.ok /\ e.resp.ok /\ r.resp.gasUsed # e.resp.gasUsed THEN {"resp.gasUsed"} ELSE {})
     [] e.ev = "EndBlock"  -> (IF r.resp.valUpdates # e.resp.valUpdates THEN {"resp.valUpdates"} ELSE {})
     [] OTHER -> {}
 
@@ -76,11 +78,11 @@ ModelStep(e) ==
     [] e.ev = "DeliverTx"  -> DeliverTx(m, e.tx)
     [] e.ev = "EndBlock"   -> EndBlock(m)
     [] e.ev = "Commit"     -> Commit(m)
-    [] e.ev = "CheckTx"    -> [s |-> m, resp |-> [ok |-> TRUE]]
+    [] e.ev = "CheckTx"    -> CheckTx(m, e.tx)
     [] e.ev = "Restart"    -> Restart(m)
 
 \* steps the model does not describe: contract execution (EvmBridge.tla and the reference run decide those)
-Undescribed(e) == e.ev = "DeliverTx" /\ e.tx.type # "garbage" /\ (EvmTx(m, e.tx) \/ (e.tx.to \in DOMAIN m.accts /\ m.accts[e.tx.to].code # 0))
+Undescribed(e) == e.ev \in {"DeliverTx", "CheckTx"} /\ e.tx.type # "garbage" /\ (EvmTx(m, e.tx) \/ (e.tx.to \in DOMAIN m.accts /\ m.accts[e.tx.to].code # 0))
 
 DocsOfTx(e, old) ==
   IF e.ev = "DeliverTx" /\ e.tx.type = "proposal" /\ e.resp.ok
